@@ -4,7 +4,7 @@
     net.ParseIP / net.ParseCIDR / net.SplitHostPort and the scheme table are universally
     quantified functions: every theorem holds whatever they answer. *)
 From Coq Require Import String List NArith Bool.
-From Fabio Require Import Lib.Outcome Lib.Bytes Model.Access Proofs.Access.
+From Fabio Require Import Lib.Outcome Lib.Bytes Model.Access Proofs.Access Model.BasicReload Proofs.BasicReload.
 Import ListNotations.
 Local Open Scope N_scope.
 
@@ -490,3 +490,118 @@ Theorem C12_nonvacuous_gate :
   serve_tcp (Some {| t_rules := ex_allow_10; t_auth := []; t_redirect := 0 |}) (TCPAddr (Some (IP4 168430090))) = [EUpstream].
 Proof. exact gate_nonvacuous. Qed.
 Print Assumptions C12_nonvacuous_gate.
+
+(* ================= X-Forwarded-For lists of any length =================
+   C12_xff_all_checked / C12_rejected_address_denies speak about membership; the same said with
+   the position explicit: whatever stands before the element (any number of elements, no bound
+   on the length of the list) and after it, in whichever header line. *)
+Theorem C12_xff_rejected_at_any_position :
+  forall parse_ip split_host r remote host before x after ip,
+  split_host remote = Some host -> parse_ip [] = None ->
+  ~ In 44 x ->
+  parse_ip (strip_zone (trim_space x)) = Some ip -> deny_by_ip r (Some ip) = true ->
+  access_denied_http parse_ip split_host r remote [join (before ++ x :: after) [44]] = true.
+Proof. exact xff_rejected_at_any_position. Qed.
+Print Assumptions C12_xff_rejected_at_any_position.
+
+Theorem C12_xff_rejected_in_any_line :
+  forall parse_ip split_host r remote host lines_before before x after lines_after ip,
+  split_host remote = Some host -> parse_ip [] = None ->
+  ~ In 44 x ->
+  parse_ip (strip_zone (trim_space x)) = Some ip -> deny_by_ip r (Some ip) = true ->
+  access_denied_http parse_ip split_host r remote
+    (lines_before ++ join (before ++ x :: after) [44] :: lines_after) = true.
+Proof. exact xff_rejected_in_any_line. Qed.
+Print Assumptions C12_xff_rejected_in_any_line.
+
+Theorem C12_xff_long_nonvacuous :
+  access_denied_http ex_parse_ip ex_split_host ex_deny_6666 (bs "1.1.1.1:1")
+    [join (repeat (bs "8.8.8.8") 40 ++ bs " 6.6.6.6" :: repeat (bs "8.8.8.8") 3) [44]] = true /\
+  access_denied_http ex_parse_ip ex_split_host ex_deny_6666 (bs "1.1.1.1:1")
+    [join (repeat (bs "8.8.8.8") 44) [44]] = false.
+Proof. exact xff_long_nonvacuous. Qed.
+Print Assumptions C12_xff_long_nonvacuous.
+
+(* ================= the basic scheme with a refreshed htpasswd file =================
+   auth/basic.go + go-htpasswd as a machine of atomic actions (Model/BasicReload.v): the operator
+   replaces / removes the file, the refresh goroutine takes its next step (Stat, Open, one line of
+   the scanner loop, the final Store), requests are judged by Match.  For EVERY initial file and
+   EVERY schedule: a request is accepted iff the file the scheme has most recently read
+   COMPLETELY has a line for the user with that password (and no later line for that user). *)
+Theorem C12_reload_verdicts_follow_loaded_file : forall init mt sched pre c b post,
+  fst (rrun (rboot init mt) sched) = pre ++ EvVerdict c b :: post ->
+  (b = true <-> file_accepts (last_loaded init pre) c).
+Proof. exact reload_verdicts_follow_loaded_file. Qed.
+Print Assumptions C12_reload_verdicts_follow_loaded_file.
+
+Theorem C12_reload_in_force_is_loaded_file : forall init mt sched,
+  in_force (snd (rrun (rboot init mt) sched))
+  = table_of (last_loaded init (fst (rrun (rboot init mt) sched))).
+Proof. exact reload_in_force_is_loaded_file. Qed.
+Print Assumptions C12_reload_in_force_is_loaded_file.
+
+(* Match on the table a complete read builds = the declarative reading of the file *)
+Theorem C12_reload_match_is_file_reading : forall f c,
+  (c_ok c = true /\ pt_match (table_of f) (c_user c) (c_pw c) = true) <-> file_accepts f c.
+Proof. exact match_table_of_iff. Qed.
+Print Assumptions C12_reload_match_is_file_reading.
+
+(* nothing is ever loaded that the operator did not give the file (the empty table: a removal) *)
+Theorem C12_reload_loads_only_given_files : forall init mt sched f,
+  In (EvLoaded f) (fst (rrun (rboot init mt) sched)) ->
+  f = [] \/ f = init \/ exists mt', In (AWrite f mt') sched.
+Proof. exact reload_loads_only_given_files. Qed.
+Print Assumptions C12_reload_loads_only_given_files.
+
+(* and a changed file does come into force: Stat, Open, one step per line, Store - however
+   requests are interleaved with these steps (so the theorems above are not about a scheme that
+   never reloads) *)
+Theorem C12_reload_changed_file_comes_into_force : forall st c mt sched,
+  pc st = RIdle -> fs st = Some (c, mt) -> mt <> cfg_mtime st ->
+  forallb (fun a => negb (is_env a)) sched = true ->
+  List.length (filter is_refresher sched) = (3 + List.length c)%nat ->
+  in_force (snd (rrun st sched)) = table_of c /\ cfg_mtime (snd (rrun st sched)) = mt.
+Proof. exact reload_changed_file_comes_into_force. Qed.
+Print Assumptions C12_reload_changed_file_comes_into_force.
+
+(* composed with the gate: after any schedule, a request is forwarded (or redirected) through a
+   route with auth=<the scheme> only if the most recently loaded file accepts its credentials;
+   otherwise 401 (403 when the access rules deny first) *)
+Theorem C12_reload_forwarded_only_if_file_accepts :
+  forall parse_ip split_host init mt sched tg remote xff c,
+  t_auth tg <> [] ->
+  (In EUpstream (serve_http parse_ip split_host bcreds (Some tg)
+                   (basic_scheme_table (t_auth tg) (snd (rrun (rboot init mt) sched))) remote xff c)
+   \/ exists code, In (ERedirect code) (serve_http parse_ip split_host bcreds (Some tg)
+                   (basic_scheme_table (t_auth tg) (snd (rrun (rboot init mt) sched))) remote xff c)) ->
+  file_accepts (last_loaded init (fst (rrun (rboot init mt) sched))) c.
+Proof. exact reload_forwarded_only_if_file_accepts. Qed.
+Print Assumptions C12_reload_forwarded_only_if_file_accepts.
+
+Theorem C12_reload_rejected_gets_401 :
+  forall parse_ip split_host init mt sched tg remote xff c,
+  t_auth tg <> [] ->
+  access_denied_http parse_ip split_host (t_rules tg) remote xff = false ->
+  ~ file_accepts (last_loaded init (fst (rrun (rboot init mt) sched))) c ->
+  serve_http parse_ip split_host bcreds (Some tg)
+             (basic_scheme_table (t_auth tg) (snd (rrun (rboot init mt) sched))) remote xff c = [ERespond 401].
+Proof. exact reload_rejected_gets_401. Qed.
+Print Assumptions C12_reload_rejected_gets_401.
+
+(* the boolean reference of the correspondence check decides [file_accepts] on files that name
+   no user twice (the harness generates only such files; checked per case) *)
+Theorem C12_reload_reference_is_spec : forall f c,
+  str_nodup (users_of f) = true -> (file_accepts_b f c = true <-> file_accepts f c).
+Proof. exact file_accepts_b_spec. Qed.
+Print Assumptions C12_reload_reference_is_spec.
+
+(* non-vacuity: alice is removed from the file; while the new file is being read (bad-line
+   callback) the old one is in force and she is accepted, bob is not; after the Store she is
+   rejected and bob accepted *)
+Theorem C12_reload_nonvacuous :
+  fst (rrun (rboot ex_file1 1) ex_sched) =
+    [EvVerdict ex_alice true; EvBadLine; EvVerdict ex_alice true; EvVerdict ex_bob false;
+     EvLoaded ex_file2; EvVerdict ex_alice false; EvVerdict ex_bob true] /\
+  file_accepts ex_file1 ex_alice /\ ~ file_accepts ex_file2 ex_alice /\ file_accepts ex_file2 ex_bob.
+Proof. exact reload_nonvacuous. Qed.
+Print Assumptions C12_reload_nonvacuous.
